@@ -265,7 +265,8 @@ Definition f1_rule (code : N) (self a : expr) (da : cx) (x : expr) : cx :=
   | Some r => apply_rule r (CE self) [a] [da]
   | None =>
       if code =? TC_Abs then cifzero da czero (CDeriv (CE self) [CE x])
-      else if code =? TC_UnevaluatedExpr then CDeriv (CE self) [CE x]
+      else if mem_code code deriv_codes then CDeriv (CE self) [CE x]
+      else if mem_code code deriv_if_dep_codes then cifzero da czero (CDeriv (CE self) [CE x])
       else if code =? TC_Not then CErr EXN_SYMENGINE
       else fdiff self code [a] [da] x
   end.
@@ -280,7 +281,8 @@ Definition f2_rule (code : N) (self a b : expr) (da db : cx) (x : expr) : cx :=
   end.
 
 Definition fn_rule (code : N) (self : expr) (l : list expr) (dl : list cx) (x : expr) : cx :=
-  if (code =? TC_Max) || (code =? TC_Min) then CDeriv (CE self) [CE x]
+  if mem_code code deriv_codes then CDeriv (CE self) [CE x]
+  else if mem_code code deriv_if_dep_codes then cifallzero dl czero (CDeriv (CE self) [CE x])
   else if mem_code code boolean_codes || mem_code code set_codes then CErr EXN_SYMENGINE
   else fdiff self code l dl x.
 
@@ -339,7 +341,9 @@ Definition subs_rule (self x a : expr) (d : list (expr * expr)) (da : cx) (ts ks
   let d0 := if existsb (fun p => expr_eqb (fst p) x) d then czero else csubst da d in
   subs_loop self x d d ts ks d0.
 
-Definition pw_rule (l : list (expr * expr)) (ds : list cx) : cx := CPw (combine ds (map snd l)).
+(* bvisit(const Piecewise&): the pieces are differentiated; 0 when all derivatives are 0 *)
+Definition pw_rule (l : list (expr * expr)) (ds : list cx) : cx :=
+  cifallzero ds czero (CPw (combine ds (map snd l))).
 
 (* ---------- DiffVisitor without cache ---------- *)
 Fixpoint diffm (m : symmode) (e x : expr) {struct e} : cx :=
@@ -466,12 +470,14 @@ Fixpoint var_agree (m : symmode) (x e : expr) : bool :=
 (* the differentiation variable of the API is a Symbol (or its subclass Dummy) *)
 Definition is_symbol (e : expr) : bool := match e with ESym _ | EDummy _ _ => true | _ => false end.
 
-(* classes whose bvisit returns an unevaluated Derivative (or a Piecewise, or throws) even when x
-   does not occur: excluded from the "exactly zero" theorem, with a refutation witness *)
+(* classes whose bvisit throws ("Derivative doesn't exist": booleans, sets) or returns an unevaluated
+   Derivative whatever the arguments are excluded from the "exactly zero" theorem *)
 Definition f1_absent_ok (code : N) : bool :=
-  memN code f1_codes && negb (code =? TC_UnevaluatedExpr) && negb (code =? TC_Not).
+  memN code f1_codes && negb (mem_code code deriv_codes) && negb (code =? TC_Not).
 Definition f2_absent_ok (code : N) : bool :=
   memN code f2_codes && negb (mem_code code boolean_codes).
+Definition fn_absent_ok (code : N) : bool :=
+  negb (mem_code code deriv_codes) && (mem_code code deriv_if_dep_codes || (code =? TC_LeviCivita)).
 Fixpoint absent_guard (e : expr) : bool :=
   match e with
   | ENum _ | EConst _ | ESym _ | EDummy _ _ => true
@@ -480,11 +486,12 @@ Fixpoint absent_guard (e : expr) : bool :=
   | EPow b ex => absent_guard b && absent_guard ex
   | EF1 code a => f1_absent_ok code && absent_guard a
   | EF2 code a b => f2_absent_ok code && absent_guard a && absent_guard b
-  | EFN code l => (code =? TC_LeviCivita) && forallb absent_guard l
+  | EFN code l => fn_absent_ok code && forallb absent_guard l
   | EFunSym _ l => forallb absent_guard l
   | EDeriv a l => absent_guard a && forallb absent_guard l
   | ESubs a d => absent_guard a && forallb (fun p => absent_guard (fst p) && absent_guard (snd p)) d
-  | EPw _ | ELex _ _ _ | EBool _ | EInterval _ _ _ _ | EAtom _ => false
+  | EPw l => forallb (fun p => absent_guard (fst p)) l
+  | ELex _ _ _ | EBool _ | EInterval _ _ _ _ | EAtom _ => false
   end.
 
 (* ---------- what the hand transcription was written against ---------- *)
@@ -503,7 +510,7 @@ Definition expected_fingerprints : list (string * string) := [
   ("FunctionWrapper", "d11e2c5b1d5cc05f");
   ("Beta", "489567a5f56ac5e7");
   ("GaloisField", "6530767905e4425a");
-  ("Piecewise", "8e67454690aae339");
+  ("Piecewise", "56e8d2fbf7447f90");
   ("fdiff_template", "50974c49c3bb67ce");
   ("get_dummy", "07df22de5a0cd812");
   ("apply", "7dd98eaff0ace63e");
@@ -514,7 +521,7 @@ Definition expected_fingerprints : list (string * string) := [
 Definition expected_zero_classes : list string := ["Number"; "Constant"].
 Definition expected_fdiff_classes : list string :=
   ["Zeta"; "LowerGamma"; "UpperGamma"; "PolyGamma"; "TwoArgFunction"; "OneArgFunction"; "MultiArgFunction"].
-Definition expected_deriv_classes : list string := ["UnivariateSeries"; "Max"; "Min"; "UnevaluatedExpr"].
+Definition expected_deriv_classes : list string := ["UnivariateSeries"].
 Definition expected_throw_classes : list (string * N) :=
   [("Set", 6%N); ("Tuple", 1%N); ("IdentityMatrix", 1%N); ("ZeroMatrix", 1%N); ("MatrixSymbol", 1%N);
    ("DiagonalMatrix", 1%N); ("ImmutableDenseMatrix", 1%N); ("MatrixAdd", 1%N); ("HadamardProduct", 1%N);
